@@ -122,21 +122,23 @@ theorem C10_gen_enter_isolated (W : World Err) (c : Ctx) (depth : Int) (routes :
     (hd : lookupAttr "max_depth" attrs = some .none) :
     Options.enter W (encCtxE c depth routes cls fe eh) route opt
       = .ok (subCtx (encCtxE c depth routes cls fe eh) depth routes cls fe eh route (.obj cn attrs)) := by
-  have hn := new_eq W "RuntimeContext"
-    [("errors", encErrs c.errors), ("tmp_errors", encErrs c.tmp), ("options", encOptions c.mode),
-      ("depth", .int depth), ("routes", .seq .list routes), ("cls", cls), ("force_error", fe), ("error_hooks", eh)]
-    depth routes cls fe eh route cn attrs hr hd rfl rfl
-  simp only [Options.enter, ga_cls, ga_fe, ga_eh, ga_opts, ho, bind, Except.bind]
-  exact hn
+  gen_obligation "C10_gen_enter_isolated: the regenerated code (Utv.Gen) is no longer equal to the hand model here" by
+    have hn := new_eq W "RuntimeContext"
+      [("errors", encErrs c.errors), ("tmp_errors", encErrs c.tmp), ("options", encOptions c.mode),
+        ("depth", .int depth), ("routes", .seq .list routes), ("cls", cls), ("force_error", fe), ("error_hooks", eh)]
+      depth routes cls fe eh route cn attrs hr hd rfl rfl
+    simp only [Options.enter, ga_cls, ga_fe, ga_eh, ga_opts, ho, bind, Except.bind]
+    exact hn
 
 /-- `context.enter(route)` without options is `Ctx.enter c .none`: the same options, nothing of the parent's errors -/
 theorem C10_gen_enter (W : World Err) (c : Ctx) (depth : Int) (routes : List E) (cls fe eh route : E)
     (hr : route.isUnprovided = false) :
     viewCtx (Options.enter W (encCtxE c depth routes cls fe eh) route .none)
       = some (encErrs (c.enter .none).errors, encErrs (c.enter .none).tmp, encOptions (c.enter .none).mode) := by
-  have ho : Options.Options_and W (encOptions c.mode) (.none : E) = .ok (encOptions c.mode) := by
-    obj_simp [Options.Options_and, isinstance]
-  rw [C10_gen_enter_isolated W c depth routes cls fe eh route .none _ _ hr ho rfl]
-  rfl
+  gen_obligation "C10_gen_enter: the regenerated code (Utv.Gen) is no longer equal to the hand model here" by
+    have ho : Options.Options_and W (encOptions c.mode) (.none : E) = .ok (encOptions c.mode) := by
+      obj_simp [Options.Options_and, isinstance]
+    rw [C10_gen_enter_isolated W c depth routes cls fe eh route .none _ _ hr ho rfl]
+    rfl
 
 end Utv.GenEq.C10
